@@ -157,7 +157,7 @@ def stub_parser(case):
     `trace_handlers` membership test inside `feed`."""
     from pykdebugparser.traces_parser import TracesParser
     codes = {c[0]: c[1] for c in case['codes'] if c[1] is not None}
-    parser = TracesParser(codes, {}, {})
+    parser = TracesParser(codes, prepopulated_threads(case), {})
 
     def mk(name):
         return lambda p, events: Rec(name, events)
@@ -168,13 +168,22 @@ def stub_parser(case):
 _real_codes = None
 
 
-def real_parser():
+def prepopulated_threads(case):
+    """The thread/process table the parser is CONSTRUCTED with: in every other case it already lists all threads of
+    the stream (as when a PyKdebugParser object is reused, or a thread map was parsed first) — the windows of
+    different threads must stay separate whatever the table held at construction time."""
+    if case is None or len(case.get('events', ())) % 2 == 0:
+        return {}
+    return {ev[1]: 1 + i for i, ev in enumerate(case['events'])}
+
+
+def real_parser(case=None):
     from pykdebugparser.trace_codes import default_trace_codes
     from pykdebugparser.traces_parser import TracesParser
     global _real_codes
     if _real_codes is None:
         _real_codes = default_trace_codes()
-    return TracesParser(dict(_real_codes), {}, {})
+    return TracesParser(dict(_real_codes), prepopulated_threads(case), {})
 
 
 REAL_NAMES = ['BSC_read', 'BSC_write', 'BSC_getpid', 'MACH_SCHED', 'TRACE_DATA_EXEC', 'TRACE_STRING_PROC_EXIT',
